@@ -18,7 +18,7 @@ namespace
         double kval = 1.0;
         u64 kpat = 0;
         double dt = 1.0;
-        int reuse = 0;  // 1: judged step is the second call of an eroder re-parameterised with set_k_coef
+        int reuse = 0;  // 1: decoy K -> target K; 2: decoy -> target -> other kind -> same target (judged step is the last call)
         std::vector<double> h;
     };
 
@@ -212,6 +212,20 @@ namespace
                 er->set_k_coef(c.kval);
             else
                 er->set_k_coef(k);
+            if (c.reuse == 2)
+            {
+                // target -> other kind -> the same target again
+                (void) er->erode(h, c.dt);
+                if (c.kmode == 0)
+                    er->set_k_coef(decoy_k);
+                else
+                    er->set_k_coef(2.0 * c.kval + 1.0);
+                (void) er->erode(decoy_h, c.dt);
+                if (c.kmode == 0)
+                    er->set_k_coef(c.kval);
+                else
+                    er->set_k_coef(k);
+            }
             const auto& e = er->erode(h, c.dt);
             for (std::size_t i = 0; i < out.size(); ++i)
                 out[i] = e.flat(i);
@@ -421,6 +435,8 @@ namespace
                                         if ((i % 3) == 1)
                                         {
                                             c.reuse = 1;
+                                            judge(ctx, c);
+                                            c.reuse = 2;
                                             judge(ctx, c);
                                             c.reuse = 0;
                                         }
